@@ -59,5 +59,11 @@ CHECKS = {
   text="All 30 fields x 43 values of every JSON/YAML shape are pushed through MdParserConfig(...), copy() and merge_file_level (under myst: and, for html_meta/substitutions, at top level) over a non-default global: accepted iff the documented type admits the value, stored in canonical form at every entry point, exactly one topmatter warning and no change for an invalid value, other fields and the global object untouched; all ordered field pairs with valid/invalid values; 43 docutils option spellings through OptionParser+create_myst_config; 26 effect documents rendered under the global and under the front-matter setting must give identical doctrees and warnings.",
   note="Trusted: SPEC table of documented types (unspecified: bool-for-int, None for heading_anchors, non-list iterables for name lists, linkify/gfm); global_only fields, commonmark_only, sub_delimiters, ref_domains excluded from the effect clause; Sphinx conf values are covered only through the shared MdParserConfig constructor.",
  ),
+ "C14": dict(
+  category="model_checking",
+  technique="exhaustive enumeration of warning call sites (AST) and of trigger sets x suppress lists, executed through the docutils pipeline (pre- and post-transform) and through in-process Sphinx builds; relational oracle run(S) = run(no suppression) minus exactly the tagged lines and system_message nodes",
+  text="All warning-emitting call sites of the package are enumerated statically and must name a catalogue member. Every set of <= 2 (3) of 16 document-reachable triggers (plus front-matter and slug-function triggers), plain and nested in a quote and a directive, is rendered with no suppression and under every emitted tag, the bare type, type.*, foreign tags and pairs: each trigger must emit its [type.subtype] tag, no myst tag outside the catalogue may appear, and the log and the doctree (pre- and post-transform) under suppression must equal the unsuppressed ones with exactly the tagged items deleted. 13 Sphinx-reachable triggers are built in-process under 4 suppress lists each with the same relation on log and stored doctree.",
+  note="Trusted: the catalogue = MystWarnings + ref.footnote; framed documents; DIRECTIVE_BODY/RENDER_METHOD/HTML_PARSE static only; allow-listed untagged docutils-policy messages; xref_ambiguous / domains (need a multi-document project / legacy domain) are exercised only statically.",
+ ),
 }
 NOT_APPLICABLE = {}
